@@ -242,6 +242,10 @@ class Application(object):
         """
         if index is None:
             index = len(self.routes)
+        elif index < 0:
+            # normalize like list.insert, so that several routes (from a
+            # SubApplication) stay contiguous and in order
+            index = max(0, len(self.routes) + index)
         rf = cast_to_route_factory(entry)
 
         kwargs.setdefault('rebind_render', getattr(rf, 'rebind_render', True))
